@@ -626,6 +626,7 @@ class DatasetWorld(object):
         elif what == "ds_op_ds":
             st["fn"] = rng.choice(["add", "sub", "mul"])
             st["drop_key"] = rng.random() < 0.3
+            st["transpose_var"] = rng.random() < 0.3
         return st
 
     # ------------------------------------------------------------------ execution
